@@ -324,6 +324,74 @@ def _r06f(rep):
 
 
 
+def _r06k(rep):
+    """The OpenMP and the serial arm of the inverse transform hand the same arguments to the per-pair routine."""
+    from engine import cast, celem
+
+    rep.rule("R06k", "inverse transform driver: the flattened OpenMP loop over ij = i * num_satom + j and the serial double loop call the per-pair routine with the same arguments (closed form of every argument, pointer arguments as base + offset through pointer locals, with floor(ij / num_satom) -> i and ij % num_satom -> j): in particular the same 3x3 block of the same row fc_index_map[i] of the force constants, which for the full layout is not row i", 1)
+    tu = cast.load(DYN)
+    fn = tu.functions.get("dym_transform_dynmat_to_fc")
+    if fn is None:
+        raise AnalysisError("anchor vanished: dym_transform_dynmat_to_fc")
+    ifs = [x for x in cast.kids(cast.body(fn)) if x.get("kind") == "IfStmt" and cast.ref_name(cast.kids(x)[0]) == "use_openmp"]
+    if len(ifs) != 1 or len(cast.kids(ifs[0])) < 3:
+        raise AnalysisError("R06k: dym_transform_dynmat_to_fc no longer has an OpenMP and a serial arm under 'if (use_openmp)'")
+    ns, np_ = sp.Symbol("num_satom", integer=True, positive=True), sp.Symbol("num_patom", integer=True, positive=True)
+    i, j, ij = sp.Symbol("i", integer=True), sp.Symbol("j", integer=True), sp.Symbol("ij", integer=True)
+    ex = celem.ElemExec(tu, where=DYN)
+
+    def args_of(arm):
+        calls = [c for c in cast.walk(arm) if c.get("kind") == "CallExpr" and cast.callee_name(c) == "transform_dynmat_to_fc_ij"]
+        if len(calls) != 1:
+            raise AnalysisError("R06k: an arm of dym_transform_dynmat_to_fc does not call transform_dynmat_to_fc_ij exactly once")
+        ptr = {}  # pointer locals of the arm: name -> (base, offset)
+        ctx = celem.State(ex, "dym_transform_dynmat_to_fc", {"num_satom": ns, "num_patom": np_, "i": i, "j": j, "ij": ij}, {}, 0)
+
+        def val(e):
+            e0 = cast.strip(e)
+            while e0.get("kind") in ("ImplicitCastExpr", "CStyleCastExpr", "ParenExpr") and cast.kids(e0):
+                e0 = cast.strip(cast.kids(e0)[0])
+            qt = cast.qtype(e0)
+            if "*" in qt or "[" in qt:
+                if e0.get("kind") == "DeclRefExpr":
+                    nm = e0["referencedDecl"]["name"]
+                    return ptr.get(nm, (nm, sp.Integer(0)))
+                if e0.get("kind") == "BinaryOperator" and e0.get("opcode") in ("+", "-"):
+                    a, b = cast.kids(e0)
+                    base, off = val(a)
+                    d = ctx.expr(b)
+                    return (base, sp.expand(off + d if e0.get("opcode") == "+" else off - d))
+                raise AnalysisError(f"R06k: pointer argument '{cast.text(e)}'")
+            return ("", sp.expand(ctx.expr(e)))
+
+        for x in cast.walk(arm):
+            if x.get("kind") == "BinaryOperator" and x.get("opcode") == "=":
+                l, r = cast.kids(x)
+                nm = cast.ref_name(l)
+                if nm and ("*" in cast.qtype(cast.strip(l))) and cast.strip(l).get("kind") == "DeclRefExpr":
+                    ptr[nm] = val(r)
+        return calls[0], [val(a) for a in cast.call_args(calls[0])]
+
+    c_omp, a_omp = args_of(cast.kids(ifs[0])[1])
+    c_ser, a_ser = args_of(cast.kids(ifs[0])[2])
+
+    def norm(v):
+        base, off = v
+        off = off.replace(lambda t: isinstance(t, sp.floor) and sp.simplify(t.args[0] - ij / ns) == 0, lambda t: i)
+        off = off.replace(lambda t: isinstance(t, sp.Mod) and t.args[0] == ij and t.args[1] == ns, lambda t: j)
+        return base, sp.expand(off.subs(ij, i * ns + j))
+
+    bad = []
+    for k, (x, y) in enumerate(zip(a_omp, a_ser)):
+        nx, ny = norm(x), norm(y)
+        if nx[0] != ny[0] or sp.simplify(nx[1] - ny[1]) != 0:
+            bad.append((k, nx, ny))
+    if len(a_omp) != len(a_ser):
+        bad.append((-1, ("", sp.Integer(len(a_omp))), ("", sp.Integer(len(a_ser)))))
+    rep.instance("R06k", DYN, "dym_transform_dynmat_to_fc", f"{len(a_omp)} arguments of transform_dynmat_to_fc_ij agree between the OpenMP arm (ij) and the serial arm (i, j)", not bad,
+                 (f"argument {bad[0][0]} is {bad[0][1][0]} + {bad[0][1][1]} in the OpenMP arm and {bad[0][2][0]} + {bad[0][2][1]} in the serial arm" if bad else "") + ": with use_openmp the 3x3 blocks of primitive atom i are written to another row of the force constants than without (row i instead of row fc_index_map[i] for the full layout), so the round trip force constants -> D(q) -> force constants depends on the build and the flag", line=tu.line(c_omp))
+
+
 def _r06j(rep):
     """The supercell-atom -> primitive-index map of the inverse transform, typed (compiled and Python routes)."""
     from rules.c02 import _maptype
@@ -506,6 +574,7 @@ _run_main = run
 
 
 def run(rep: core.Report):
+    _r06k(rep)
     _run_main(rep)
     _r06f(rep)
     _r06h(rep)
@@ -521,6 +590,7 @@ def selftest():
     b = lambda name, file, old, new, rule, expect="", **kw: V.append(dict(name=name, kind="break", file=file, old=old, new=new, rule=rule, expect=expect, **kw))
     n = lambda name, file, old, new, **kw: V.append(dict(name=name, kind="neutral", file=file, old=old, new=new, **kw))
     b("inverse transform: primitive index by rank among the sorted representatives", "phonopy/harmonic/dynmat_to_fc.py", "        s2pp = np.array([p2p[i] for i in s2p], dtype=\"int64\")", "        s2pp = np.array(np.unique(s2p, return_inverse=True)[1], dtype=\"int64\")", "R06j", "_c_inverse_transformation")
+    b("OpenMP arm of the inverse transform passes another primitive index", DYN, "                fc, dm, ij / num_satom, ij % num_satom, comm_points, svecs,", "                fc, dm, ij % num_patom, ij % num_satom, comm_points, svecs,", "R06k", "dym_transform_dynmat_to_fc")
     D2F_ = "phonopy/harmonic/dynmat_to_fc.py"
     b("supercell matrix from the row-vector lattices (transposed)", D2F_, "        supercell_matrix = np.linalg.inv(self._pcell.primitive_matrix)\n", "        supercell_matrix = np.dot(self._scell.cell, np.linalg.inv(self._pcell.cell))\n", "R06i", "get_commensurate_points")
     n("supercell matrix from the column-vector lattices", D2F_, "        supercell_matrix = np.linalg.inv(self._pcell.primitive_matrix)\n", "        supercell_matrix = np.dot(np.linalg.inv(self._pcell.cell.T), self._scell.cell.T)\n")
